@@ -155,6 +155,39 @@ Theorem C17_same_alignment : forall cols col len align,
 Proof. exact offset_eq. Qed.
 Print Assumptions C17_same_alignment.
 
+(* what a write leaves in every cell, any text (no ASCII restriction): the text cut to the
+   space right of [col] ([trunc] = its first cols-col characters) sits at the aligned offset,
+   the rest of the row is blank (clear) or as before, other rows as before - host ... *)
+Theorem C17_write_cells_host : forall h col row text clear align,
+  buf_wf (h_cols h) (h_rows h) (h_buf h) ->
+  0 <= row < h_rows h -> 0 <= col < h_cols h -> align_ok align = true ->
+  let content := trunc text (h_cols h - col) in
+  let off := place_col (h_cols h) col (h_cols h - col) (zlen content) align in
+  exists h', hwrite h col row text clear align = (h', HOk) /\ same_flags h h' /\
+    buf_wf (h_cols h) (h_rows h) (h_buf h') /\
+    forall r c, 0 <= r < h_rows h -> 0 <= c < h_cols h ->
+      hcell h' r c = if r =? row
+                     then if (off <=? c) && (c <? off + zlen content) then znth (c - off) content 0
+                          else if clear then SP else hcell h r c
+                     else hcell h r c.
+Proof. exact hwrite_spec. Qed.
+Print Assumptions C17_write_cells_host.
+
+(* ... and firmware helper (text = the bytes handed to __redu_lcd_write_aligned) *)
+Theorem C17_write_cells_device : forall d col row text clear align,
+  fits (d_g d) -> 0 <= row < d_rows d -> 0 <= col < d_cols d -> align_ok align = true ->
+  let content := trunc text (d_cols d - col) in
+  let off := dev_offset (d_cols d) col (d_cols d - col) (zlen content) align in
+  let d' := write_aligned d (d_cols d) col row text clear align in
+  d_g d' = d_g d /\ in_row_ext row d d' /\
+  forall r c, 0 <= r < d_rows d -> 0 <= c < d_cols d ->
+    dcell d' r c = if r =? row
+                   then if (off <=? c) && (c <? off + zlen content) then znth (c - off) content 0
+                        else if clear then SP else dcell d r c
+                   else dcell d r c.
+Proof. exact write_aligned_spec. Qed.
+Print Assumptions C17_write_cells_device.
+
 (* ===================================================== never off-row, never beyond the width *)
 
 (* firmware: any call with in-range row/column (any text, also non-ASCII; any value,
